@@ -2,6 +2,7 @@
 from __future__ import annotations
 
 from ..absint import new_interp, Interp, HList, HDict, NONE, const, is_const, fmt, fmt_seg, fmt_tree, mk_not, mk_cmp, mk_cond
+from ..names import N
 from ..common import AnalysisError, Report
 from ..facts import facts
 from .. import nf
@@ -958,7 +959,7 @@ def rule_ids(rep: Report, rid_order="C11.order", rid_src="C11.src") -> None:
                       f"drawn under {[(fmt(a, I), p) for a, p in sorted(dg, key=str)][:4]} but used only under "
                       f"{[(fmt(a, I), p) for a, p in sorted(flows[0] - dg, key=str)][:4]}"),
                file=CFILE, line=line, function=_fn_at(c, line))
-        rep.ob(rid_src, "the generator drawn from is the compiler's own id_generator attribute", n[3] == ("attr", c.selft, "id_generator"),
+        rep.ob(rid_src, "the generator drawn from is the compiler's own id_generator attribute", n[3] == ("attr", c.selft, N.idgen_attr("gherkin.pickles.compiler.Compiler")),
                expected="self.id_generator", found=fmt(n[3], I) if n[3] else None, file=CFILE, line=line, function=_fn_at(c, line))
     for e in c.emits:
         line = c.line_of(e["node"])
